@@ -108,3 +108,31 @@ def transcode_chains(fn_node: ast.AST) -> list[ast.Call]:
             if (isinstance(r, ast.Call) and isinstance(r.func, ast.Attribute) and r.func.attr == "decode" and not (isinstance(r.func.value, ast.Name) and r.func.value.id in ("base64", "quopri", "binascii", "codecs"))) or (isinstance(r, ast.Name) and r.id in decoded):
                 out.append(c)
     return out
+
+
+def constants_of(ctx: Ctx, fi: FuncInfo, kinds=(str,)) -> set:
+    """The constants a function works with, however they are spelled: the literals in its body, and the folded values of the module-level
+    names it reads (a tuple / set / list / dict of constants contributes its elements) -- `"Workbook"` in the body and
+    `_XLS_STREAMS = ("Workbook", "Book")` at module level are the same thing to a rule."""
+    out = set()
+
+    def add(v, depth=0):
+        if isinstance(v, kinds):
+            out.add(v)
+        elif isinstance(v, (tuple, list, set, frozenset)) and depth < 3:
+            for x in v:
+                add(x, depth + 1)
+        elif isinstance(v, dict) and depth < 3:
+            for k, x in v.items():
+                add(k, depth + 1)
+                add(x, depth + 1)
+
+    local = {n.id for n in ast.walk(fi.node) if isinstance(n, ast.Name) and isinstance(n.ctx, ast.Store)} | {a.arg for a in ast.walk(fi.node) if isinstance(a, ast.arg)}
+    for n in walk_own(fi.node):
+        if isinstance(n, ast.Constant):
+            add(n.value)
+        elif isinstance(n, ast.Name) and isinstance(n.ctx, ast.Load) and n.id not in local:
+            v = ctx.folder.fold(fi.module, n)
+            if v is not UNKNOWN:
+                add(v)
+    return out
